@@ -34,10 +34,22 @@
         op   : (0 sval) write | (1) close | (2) connect;  sval : (0 z) | (2 b) | (4 text)
         ->   (1 kind) constructor raised | (0 outs), outs per op: (payloads res),
              payloads = texts handed to the backend write(), res: (0 text) | (0) | (1 kind)
+   (7 x fl fh tl th)                         Utils.map, BIT-EXACT binary64 model (Host/UtilsFloat.v)
+        fnum : (0 z) int | (1 sf) float | (2 b) bool | (3) None
+        sf   : (0 s) zero | (1 s) infinity | (2) nan | (3 s m e) finite (-1)^s * m * 2^e, canonical
+               (53-bit mantissa or exponent -1074; anything else is undecodable), s = 0 | 1
+        ->   (0 sf) | (1 kind), kind: 1 ValueError | 2 TypeError | 4 OverflowError | 5 ZeroDivisionError
+   (8 d)                                     Utils.sleep, bit-exact
+        ->   (0 calls) | (1 kind calls), calls = list of sf
+   (9 ops)                                   Core history over extended pins (Host/CoreKeys.v)
+        xpin : (0 z) int | (1 text) str | (2 b) bool | (3 (n d)) float | (4) None | (5) unhashable
+        op as in case 0 with xpin; -> as case 0 (keys of the state: int / str / the embedded
+        keys of non-integral floats and None, see Host/CoreKeys.v)
    anything else -> (2)  (undecodable: harness bug) *)
 From Coq Require Import ZArith QArith List Bool.
+From Coq Require Import SpecFloat.
 From RV Require Import Base.Wire Base.Text Base.NumC Base.TextC
-  Host.Core Host.Utils Host.Sensors Host.Serial.
+  Host.Core Host.Utils Host.Sensors Host.Serial Host.UtilsFloat Host.CoreKeys.
 Import ListNotations.
 Open Scope Z_scope.
 
@@ -210,6 +222,81 @@ Definition run_serial (backend : bool) (baud : Z) (port_given : bool) (newline :
   | UOk s => wok [WL (map (fun wr => WL [WL (map wtext (fst wr)); w_sres (snd wr)]) (srun s ops))]
   end.
 
+(* ------------------------------------------------- bit-exact Utils (float) *)
+
+Definition un_sf (v : wv) : option sf :=
+  match v with
+  | WL [WI 0; s] => match un_bool s with Some b => Some (S754_zero b) | None => None end
+  | WL [WI 1; s] => match un_bool s with Some b => Some (S754_infinity b) | None => None end
+  | WL [WI 2] => Some S754_nan
+  | WL [WI 3; s; WI (Zpos m); WI e] =>
+      match un_bool s with
+      | Some b => let f := S754_finite b m e in if fvalid f then Some f else None
+      | None => None
+      end
+  | _ => None
+  end.
+
+Definition w_sf (f : sf) : wv :=
+  match f with
+  | S754_zero s => WL [WI 0; wbool s]
+  | S754_infinity s => WL [WI 1; wbool s]
+  | S754_nan => WL [WI 2]
+  | S754_finite s m e => WL [WI 3; wbool s; WI (Zpos m); WI e]
+  end.
+
+Definition un_fnum (v : wv) : option fnum :=
+  match v with
+  | WL [WI 0; WI z] => Some (NI z)
+  | WL [WI 1; f] => match un_sf f with Some x => Some (NF x) | None => None end
+  | WL [WI 2; b] => match un_bool b with Some x => Some (NB x) | None => None end
+  | WL [WI 3] => Some NN
+  | _ => None
+  end.
+
+Definition run_fmap (x fl fh tl th : fnum) : wv :=
+  match fmap x fl fh tl th with
+  | FOk f => wok [w_sf f]
+  | FRaise e => WL [WI 1; WI (fexn_code e)]
+  end.
+
+Definition run_fsleep (d : fnum) : wv :=
+  let '(calls, r) := fsleep d in
+  match r with
+  | FOk _ => WL [WI 0; WL (map w_sf calls)]
+  | FRaise e => WL [WI 1; WI (fexn_code e); WL (map w_sf calls)]
+  end.
+
+(* ------------------------------------------------------ Core, extended pins *)
+
+Definition un_xpin (v : wv) : option xpin :=
+  match v with
+  | WL [WI 0; WI z] => Some (XI z)
+  | WL [WI 1; t] => match un_text t with Some x => Some (XS x) | None => None end
+  | WL [WI 2; b] => match un_bool b with Some x => Some (XB x) | None => None end
+  | WL [WI 3; q] => match un_q q with Some x => Some (XF x) | None => None end
+  | WL [WI 4] => Some XNone
+  | WL [WI 5] => Some XUnhashable
+  | _ => None
+  end.
+
+Definition un_xop (v : wv) : option xop :=
+  match v with
+  | WL [WI 0; p; m] =>
+      match un_xpin p, un_text m with Some a, Some b => Some (XPinMode a b) | _, _ => None end
+  | WL [WI 1; p; x] =>
+      match un_xpin p, un_num x with Some a, Some b => Some (XDWrite a b) | _, _ => None end
+  | WL [WI 2; p; x] =>
+      match un_xpin p, un_num x with Some a, Some b => Some (XAWrite a b) | _, _ => None end
+  | WL [WI 3; p] => match un_xpin p with Some a => Some (XDRead a) | None => None end
+  | WL [WI 4; p] => match un_xpin p with Some a => Some (XARead a) | None => None end
+  | _ => None
+  end.
+
+Definition run_xcore (ops : list xop) : wv :=
+  let '(s, rs) := xrun_from init ops in
+  wok [WL (map w_res rs); w_state s].
+
 (* ------------------------------------------------------------------- run *)
 
 Definition run (v : wv) : wv :=
@@ -244,5 +331,14 @@ Definition run (v : wv) : wv :=
       | Some a, Some b, Some c, Some l => run_serial a baud b c l
       | _, _, _, _ => wbad
       end
+  | WL [WI 7; x; fl; fh; tl; th] =>
+      match un_fnum x, un_fnum fl, un_fnum fh, un_fnum tl, un_fnum th with
+      | Some a, Some b, Some c, Some d, Some e => run_fmap a b c d e
+      | _, _, _, _, _ => wbad
+      end
+  | WL [WI 8; d] =>
+      match un_fnum d with Some a => run_fsleep a | None => wbad end
+  | WL [WI 9; WL ops] =>
+      match un_list un_xop ops with Some l => run_xcore l | None => wbad end
   | _ => wbad
   end.
